@@ -267,8 +267,9 @@ def check(scn, hist):
                 out.append(V(PROP, 'attribution', m, oid, 'returned %r, expected %r' % (rec['ret'], want)))
         elif st is not None:
             knownv, want = expected_value(m, args, kw, st)
-            if knownv and want is None and rec['ret'] is True:
-                pass        # a helper without a documented result may as well report success as True
+            if knownv and want is None and rec['ret'] is not False:
+                pass        # a helper without a documented result may return whatever it likes on success
+                            # (True, the value it stored ...) - only False would report a failure that was none
             elif knownv and rec['ret'] != want:      # (equality only: 1 for True is not a wrong value)
                 out.append(V(PROP, 'attribution', m, oid, 'returned %r, expected %r' % (rec['ret'], want)))
     return out
